@@ -281,6 +281,12 @@ def check_maxval(case, ctx: Ctx):
         ctx.fail(C, f"exceeds_max_val:{case['cls']}", f"{case}: max|samples|={m} (duration {D})")
     if np.any(np.sign(x[np.abs(x) > 0]) != np.sign(mv)):
         ctx.fail(C, "wrong_sign", "")
+    # it is the window that was asked for (same class, requested beta), of that duration
+    ref = smp(cls(D, area, *extra))
+    if ref.shape != x.shape or np.max(np.abs(ref - x)) > 1e-9 * max(1.0, m):
+        ctx.fail(C, f"not_the_requested_window:{case['cls']}",
+                 f"{case}: from_max_val returned {w!r}, whose samples differ from {case['cls']}({D}, area"
+                 f"{', beta=' + str(extra[0]) if extra else ''}) by {np.max(np.abs(ref - x)) if ref.shape == x.shape else 'shape'}")
     if D < 16:
         ctx.label("short_window_irregularity(skipped)")
         return
